@@ -142,6 +142,8 @@ def _regular(case):
 
 PREDICATES = {
     "dense_path_regular": lambda case: _regular(case) and case["r"] >= _In(case) - 1,
+    "dense_path": lambda case: case["r"] >= _In(case) - 1,
+    "all_singleton": lambda case: all(s == 1 for s in case["shape"]),
     "iterative_path_regular": lambda case: _regular(case) and case["r"] < _In(case) - 1,
     "regular": _regular,
     "degenerate_unfolding": lambda case: not _regular(case),
